@@ -2,6 +2,7 @@ package scen
 
 import (
 	"context"
+	"database/sql"
 	"fmt"
 	"os"
 	"strings"
@@ -51,7 +52,19 @@ func runC03(rc *RunCtx) (*Violation, error) {
 		case "tx.precommit":
 			return cur.Check("hook.precommit:before")
 		case "tx.commit.before_db":
-			return cur.Check("hook.commit:database")
+			if err := cur.Check("hook.commit:database"); err != nil {
+				return err
+			}
+			// a COMMIT that itself fails: the underlying transaction is rolled
+			// back here, so the real tx.Commit() right after this point returns
+			// an error from database/sql (the path a failing COMMIT takes)
+			if err := cur.Check("hook.commit:commit-statement-fails"); err != nil {
+				if len(args) > 0 {
+					if tx, ok := args[0].(*sql.Tx); ok && tx != nil {
+						_ = tx.Rollback()
+					}
+				}
+			}
 		}
 		return nil
 	})
